@@ -79,6 +79,8 @@ func init() {
 					pairs(e, "c05live:"+con+":"+q, "live/"+con+"->"+q, lv, lv)
 				}
 			}
+			kl := KeyedLoose()
+			pairs(e, "c05:SETKEYS:id", "Kloose/SETKEYS:id", kl, kl)
 			for _, o := range c05Opts {
 				for _, l := range c05Legs(tier, o) {
 					pairs(e, "c05:"+o, l.Name+"/"+o, l.A, l.B)
